@@ -204,7 +204,7 @@ def main(argv=None):
 
 def finish(prop, a, dsl, reports, t0, seed, extra):
     kf = known_findings()
-    known = [f for f in kf.get('findings', []) if f['property'] == prop]
+    known = [f for f in kf.get('findings', []) if prop in [x.strip() for x in f['property'].split(',')]]
     ledger = load_ledger(prop)
     obligations = 0
     discharged = 0
